@@ -149,6 +149,13 @@ func (el *eventloop) enroll(c net.Conn, addr net.Addr, ctx any) (resCh chan Regi
 			resCh <- RegisteredResult{Err: err1}
 			return
 		}
+		// Close the duplicated descriptor on every failure before it is handed over to the event-loop.
+		registered := false
+		defer func() {
+			if !registered {
+				_ = unix.Close(dupFD)
+			}
+		}()
 
 		var (
 			sockAddr unix.Sockaddr
@@ -195,6 +202,7 @@ func (el *eventloop) enroll(c net.Conn, addr net.Addr, ctx any) (resCh chan Regi
 			resCh <- RegisteredResult{Err: err}
 			return
 		}
+		registered = true
 		<-connOpened
 
 		resCh <- RegisteredResult{Conn: gc}
